@@ -70,7 +70,9 @@ package config
 // claimed here.
 //@ func (*Config).UnmarshalYAML
 //@   props C17
-//@   nosafe
+// what the decoder is assumed to hand over: a global section that went through GlobalConfig.UnmarshalYAML (whose
+// postcondition [http-config-never-nil] is proved); URL values are covered by the type invariant of common.URL
+//@   after call dynamic:param:unmarshal assume (c.Global != nil ==> c.Global.HTTPConfig != nil)
 //@   requires c != nil && unmarshal != nil
 //@   at call config.checkTimeInterval assert [root-route] c.Route != nil && len(c.Route.Receiver) > 0 && len(c.Route.Match) == 0 && len(c.Route.MatchRE) == 0 && len(c.Route.Matchers) == 0
 //@             && len(c.Route.MuteTimeIntervals) == 0 && len(c.Route.ActiveTimeIntervals) == 0
@@ -146,3 +148,22 @@ package config
 //@   fields (password|secret|token|api_key|service_key|user_key)
 //@   except _file$
 //@   types Secret SecretURL SecretTemplateURL
+
+// ---- C17 "never panics": per-integration validation runs on whatever the decoder produced - any pointer field may be
+// nil (a key left empty or set to null). Safety obligations only (no nosafe): every dereference must be guarded.
+//@ func (*SlackConfig).UnmarshalYAML
+//@   props C17
+//@   requires c != nil && unmarshal != nil
+
+// ---- C17 "never panics", continued. The global section always has an HTTP client configuration to copy from: the
+// default one survives an empty or null `http_config`. (The decoder runs GlobalConfig.UnmarshalYAML on the global
+// section: Config.UnmarshalYAML assumes this postcondition of whatever global section the decoder hands it.)
+//@ func DefaultGlobalConfig
+//@   props C17
+//@   ensures [defaults] result.HTTPConfig != nil && result.SMTPTLSConfig != nil && result.SlackAppURL != nil && result.SlackAppURL.URL != nil
+//@             && result.OpsGenieAPIURL != nil && result.WeChatAPIURL != nil && result.VictorOpsAPIURL != nil && result.PagerdutyURL != nil
+//@   assigns nothing
+//@ func (*GlobalConfig).UnmarshalYAML
+//@   props C17
+//@   requires c != nil && unmarshal != nil
+//@   ensures [http-config-never-nil] result == nil ==> c.HTTPConfig != nil
